@@ -58,7 +58,7 @@ def swarm(rng, tier: str, *, profile: str = "edit") -> dict:
         "paren": on(0.05, 0.15),
         "lets": rng.choice([0, 0, 1, 1, 2] if not thorough else [0, 1, 1, 2, 3]),
         "outer_lets": on(0.05, 0.2),
-        "perturb": on(0.0, 0.0),
+        "perturb": on(0.12, 0.2),
         "final_newline": rng.random() < 0.9,
         "ops": rng.randint(1, 6 if not thorough else 8),
         "restart": rng.choice(["live", "restart", "mixed"]),
@@ -278,6 +278,15 @@ def perturb_whitespace(rng, text: str) -> str:
         return text
     toks = doc.tokens()
     data = doc.data
+    # formals stay on one line: this tree-sitter-nix rejects the trailing comma the library adds to
+    # multi-line formals (`{\n  a,\n  b,\n}:`), which would make every later step "erroneous"
+    formals = []
+    stack = [doc.root]
+    while stack:
+        nd = stack.pop()
+        if nd.type == "formals":
+            formals.append((nd.start_byte, nd.end_byte))
+        stack.extend(nd.children)
     out = bytearray()
     pos = 0
     in_string = 0
@@ -291,6 +300,8 @@ def perturb_whitespace(rng, text: str) -> str:
                 choice = rng.choice([b" ", b"  ", b"\n", b"\n\n", b"\t", b"\n    ", b" \n"])
             # never separate what must stay adjacent
             if prev in ("''", '"', "${") or t in ("''", '"'):
+                choice = gap
+            if b"\n" in choice and any(fs <= s <= fe for fs, fe in formals):
                 choice = gap
             gap = choice
         out += gap
